@@ -263,6 +263,7 @@ def shard_main(argv):
     res = ctx.result()
     for v in res['violations']:
         v['ambient'] = AMBIENT_STATE['name']
+        v['hashseed'] = int(os.environ.get('PYTHONHASHSEED') or 0)
     res['counters']['ambient:%s:evaluations' % AMBIENT_STATE['name']] = res['evaluations']
     if AMBIENT_STATE['name'] == 'logging-debug':
         res['counters']['ambient:logging-debug:log-records-formatted'] = AMBIENT_STATE['log_records_formatted']
@@ -291,7 +292,9 @@ def load_known():
 
 def _spawn(prop, tier, seed, shard, nshards, out, replay, results, errors):
     env = dict(os.environ)
-    env['PYTHONHASHSEED'] = '0'
+    # str hash randomisation: fixed per shard (deterministic), but not the same everywhere - set/dict-of-str iteration
+    # orders inside the library differ from shard to shard
+    env['PYTHONHASHSEED'] = os.environ.get('VP_HASHSEED') or str(shard)
     env['PYTHONDONTWRITEBYTECODE'] = '1'
     env['PYTHONPATH'] = VERIF + os.pathsep + os.path.join(REPO, 'lib')
     env['VP_REPO'] = REPO
@@ -303,6 +306,12 @@ def _spawn(prop, tier, seed, shard, nshards, out, replay, results, errors):
         except (OSError, ValueError):
             ambient = 'default'
     env['VP_AMBIENT'] = ambient
+    if replay and not os.environ.get('VP_HASHSEED'):
+        try:
+            with open(replay) as f:
+                env['PYTHONHASHSEED'] = str(json.load(f).get('hashseed') or 0)
+        except (OSError, ValueError):
+            pass
     if ambient == 'ascii-locale':
         env.update({'LC_ALL': 'C', 'LANG': 'C', 'PYTHONCOERCECLOCALE': '0', 'PYTHONUTF8': '0', 'PYTHONIOENCODING': 'utf-8'})
     cmd = [PY, '-B', '-m', 'vp.shard', prop, tier, str(seed), str(shard), str(nshards), out]
@@ -439,7 +448,8 @@ def conclude(prop, tier, seed, mod, results, errors, wall, replay):
             path = os.path.join(rdir, '%s.json' % h)
             with open(path, 'w') as f:
                 json.dump({'property': prop, 'key': v['key'], 'msg': v['msg'], 'case': v['case'],
-                           'seed': seed, 'tier': tier, 'ambient': v.get('ambient', 'default')}, f, indent=1, ensure_ascii=True)
+                           'seed': seed, 'tier': tier, 'ambient': v.get('ambient', 'default'), 'hashseed': v.get('hashseed', 0)},
+                          f, indent=1, ensure_ascii=True)
             replay_paths.append((v['key'], path, v['msg']))
 
     # --- report
